@@ -360,6 +360,52 @@ func runC12(run *Run, seed int64, cfg c12Cfg, sizes []int, rng *rand.Rand) (out 
 	if extra > 0 {
 		fail("user-extra", "%d payloads reached the delegate that were never sent (duplicates or corrupted copies) cfg %+v", extra, cfg)
 	}
+	// the receiver leaves, its process ends, and its name comes back from another address: what the sender then
+	// addresses to that member (by the Node it finds in Members()) must reach the new instance
+	if seed%2 == 1 {
+		if err := B.ML().Leave(5 * time.Second); err == nil {
+			Settle(2 * time.Second)
+			c.Stop(B)
+			B2, err := c.Add(NodeSpec{Name: nameB, IP: "10.0.7.7", Port: cfg.Port, Meta: meta('c', cfg.MetaLen), Mutate: mut(cfg.TimeFmtB, false), WithPing: true})
+			if err != nil {
+				fail("harness/create", "%v", err)
+				return
+			}
+			if _, err := B2.ML().Join([]string{A.EP.Addr}); err != nil {
+				fail("rejoin", "a departed name could not come back from another address: %v cfg %+v", err, cfg)
+				return
+			}
+			Settle(2 * time.Second)
+			var nb2 *memberlist.Node
+			for _, mb := range A.ML().Members() {
+				if mb.Name == nameB {
+					nb2 = mb
+				}
+			}
+			run.Cell("path", "member-returned-from-new-address")
+			if nb2 == nil {
+				fail("rejoin-not-listed", "the sender does not list the returned member cfg %+v", cfg)
+				return
+			}
+			p1, p2 := mkPayload(rng, 77001, 40, false), mkPayload(rng, 77002, 2000, false)
+			e1 := A.ML().SendBestEffort(nb2, p1)
+			e2 := A.ML().SendReliable(nb2, p2)
+			_, e3 := A.ML().Ping(nameB, simAddr{nb2.Address()})
+			Settle(2 * time.Second)
+			got := B2.Del.Received()
+			has := func(p []byte) bool {
+				for _, g := range got {
+					if bytes.Equal(g, p) {
+						return true
+					}
+				}
+				return false
+			}
+			if e1 != nil || e2 != nil || e3 != nil || !has(p1) || !has(p2) {
+				fail("returned-member-unreachable", "member %q left and came back from %s; addressed through the Node the sender lists (Address() = %s): best-effort err=%v delivered=%v, reliable err=%v delivered=%v, ping err=%v cfg %+v", nameB, B2.EP.Addr, nb2.Address(), e1, has(p1), e2, has(p2), e3, cfg)
+			}
+		}
+	}
 	c.CheckQuiescent()
 	for _, p := range c.Problems() {
 		out = append(out, &c01Result{p.Key, p.What})
